@@ -21,12 +21,18 @@ RULE = ("(optionally piecewise through Python control flow on x: on one side of 
         "integrand f(x;a,c) = scale * c_j sin(a_j x + j) (x envelope exp(-x^2/2) for infinite limits), output scalar/vector/tuple; "
         "n in 2..12, bck_options absent or n_b != n; limits: python float / tensor / tensor requiring grad / infinite; "
         "function kind from pbt/gen.py (pure, nn.Module, nested, EditableModule incl. containers, siblings) with optional unused "
-        "tensor (explicit or object-held) and non-tensor parameter; which leaves require grad; first and second order. "
+        "tensor (explicit or object-held) and non-tensor parameter; which leaves require grad; first and second order; "
+        "history of backward passes through the ONE forward graph (single pass; or 2-3 passes with retain_graph: plain then "
+        "graph-recording then second order, another cotangent first, graph-recording twice with the same / another cotangent, "
+        "graph-recording then plain, plain twice / three times with alternating cotangents) - every pass is compared with the "
+        "reference, second order is taken from every graph-recording pass after all passes have run. "
         "Non-trivial = at least one leaf or limit requires grad and its reference gradient is non-zero; distinct by canonical case.")
 ASSUMPTIONS = [
     "float64 only; tolerance 1e3*n*eps*scale of the summed absolute terms",
     "an infinite limit is never asked for a gradient itself",
     "the reference n_b-point rule uses numpy.polynomial.legendre.leggauss nodes/weights",
+    "torch.autograd semantics: a graph kept with retain_graph may be back-propagated any number of times, with any cotangent, "
+    "with or without create_graph, each pass giving the gradient of that cotangent's contraction (same tolerance per pass)",
 ]
 LEVEL_TEXT = ("Exploration against an independent differentiable re-derivation of the rule: at n in 2..12 the n-point and the 100-point "
               "rules differ by many orders above tolerance, so option propagation, Leibniz terms and unused-tensor handling are all observable.")
@@ -160,7 +166,11 @@ def run_case(case):
     outs = (res,) if isinstance(res, torch.Tensor) else tuple(res)
     W = [torch.randn((o.numel(),), generator=g, dtype=DT) for o in outs]
     loss = sum((o.reshape(-1) * w).sum() for o, w in zip(outs, W))
-    second = case["order"] == 2
+    # history of backward passes through the ONE forward graph: [cotangent index, graph-recording?] each
+    passes = [list(p_) for p_ in (case.get("passes") or [[0, case["order"] == 2]])]
+    multi = len(passes) > 1
+    second = any(cg for _, cg in passes)
+    labels = labels + ["passes=" + "".join(("G" if cg else "p") + ("'" if wi else "") for wi, cg in passes)]
     if not loss.requires_grad:
         return violation("no_graph", "quad output does not require grad although %d inputs do" % len(wrt), labels)
     if case.get("loss") == "fit" and second and diff_leaves and not limits_g:
@@ -169,6 +179,12 @@ def run_case(case):
         labels = labels + ["loss=fit"]
         wpos = [w.abs() + 0.5 for w in W]
         lossf = sum(0.5 * (w * (o.reshape(-1) - o.reshape(-1).detach()) ** 2).sum() for o, w in zip(outs, wpos))
+        if multi and not passes[0][1]:
+            # the graph is back-propagated once without recording first (e.g. to log the gradient norm)
+            g0 = xt_call(torch.autograd.grad, lossf, diff_leaves, retain_graph=True, allow_unused=True, _where="backward")
+            for gk in g0:
+                if gk is not None and float(gk.detach().abs().max()) != 0.0:
+                    return violation("fit_grad1", "gradient of a perfectly fitted least-squares loss is not zero: %r" % gk.detach().reshape(-1).tolist()[:4], labels)
         g1 = xt_call(torch.autograd.grad, lossf, diff_leaves, create_graph=True, allow_unused=True, _where="backward")
         Cf = [torch.randn(x.shape, generator=g, dtype=DT) for x in diff_leaves]
         for gk in g1:
@@ -196,11 +212,32 @@ def run_case(case):
                 return violation("fit_grad2", "Gauss-Newton second-order term w.r.t. leaf #%d: got %s ref %s (err %.3e); n=%d nb=%d" % (
                     k, gk0.reshape(-1).tolist()[:4], rk.reshape(-1).tolist()[:4], err, n, nb), labels)
         return ok(labels, nontrivial=nz)
-    got = xt_call(torch.autograd.grad, loss, wrt, create_graph=second, allow_unused=True, _where='backward')
+    # ---------------- all backward passes of the history first, on the one graph of `loss`'s quad node ...
+    Ws = {0: W}
+    if any(wi for wi, _ in passes):
+        Ws[1] = [torch.randn((o_.numel(),), generator=g, dtype=DT) for o_ in outs]
+    gots = []
+    for wi, cg in passes:
+        lossk = loss if wi == 0 else sum((o_.reshape(-1) * w_).sum() for o_, w_ in zip(outs, Ws[wi]))
+        kw = {"retain_graph": True} if multi else {}
+        gots.append(xt_call(torch.autograd.grad, lossk, wrt, create_graph=bool(cg), allow_unused=True, _where='backward', **kw))
 
-    # ---------------- reference, first order
+    # ---------------- ... then each of them against the reference (and second order from every graph-recording one)
     eff = gen.derive_all(spec["derive"], leaves)
     scale = float(spec.get("scale", 1.0))
+    nonzero = False
+    for k, ((wi, cg), got) in enumerate(zip(passes, gots)):
+        v, nz = check_pass(got, Ws[wi], bool(cg), "" if k == 0 else "_rep", "pass %d of %d: " % (k + 1, len(passes)) if multi else "",
+                           core, eff, scale, n, nb, xlv, xuv, xl, xu, diff_leaves, limits_g, extra, wrt, g, labels, multi)
+        if v is not None:
+            return v
+        nonzero = nonzero or nz
+    return ok(labels, nontrivial=nonzero)
+
+
+def check_pass(got, W, second, sfx, where, core, eff, scale, n, nb, xlv, xuv, xl, xu, diff_leaves, limits_g, extra, wrt, g, labels, multi):
+    """one backward pass (cotangent W, graph-recording or not) against the reference: (violation or None, non-zero reference?)"""
+    # ---------------- reference, first order
     I_b, mag = ref_integral(core, eff, scale, nb, xlv, xuv, W)
     tol = 1e3 * nb * 2.3e-16 * (mag + 1.0)
     ref_leaf = grads_or_zero(I_b, diff_leaves, create_graph=second) if diff_leaves else []
@@ -216,7 +253,7 @@ def run_case(case):
     for k, (gk, rk, x) in enumerate(zip(got, ref, wrt)):
         if rk is None:      # unused tensor: zero or absent
             if gk is not None and float(gk.abs().max()) != 0.0:
-                return violation("unused_grad", "unused tensor received gradient %r" % gk.tolist(), labels)
+                return violation("unused_grad" + sfx, where + "unused tensor received gradient %r" % gk.tolist(), labels), False
             continue
         gk0 = torch.zeros_like(x) if gk is None else gk
         err = float((gk0.detach() - rk.detach()).abs().max())
@@ -224,8 +261,8 @@ def run_case(case):
         nonzero = nonzero or sc > 0
         if not err <= tol * (1 + sc):
             what = "limit" if any(x is t_ for t_ in limits_g) else "leaf"
-            return violation("grad1_" + what, "first-order gradient w.r.t. %s #%d: got %s ref %s (err %.3e, tol %.3e); n=%d nb=%d" % (
-                what, k, gk0.detach().reshape(-1).tolist()[:4], rk.detach().reshape(-1).tolist()[:4], err, tol * (1 + sc), n, nb), labels)
+            return violation("grad1_" + what + sfx, where + "first-order gradient w.r.t. %s #%d: got %s ref %s (err %.3e, tol %.3e); n=%d nb=%d" % (
+                what, k, gk0.detach().reshape(-1).tolist()[:4], rk.detach().reshape(-1).tolist()[:4], err, tol * (1 + sc), n, nb), labels), False
 
     if second:
         # L1 = sum <C_k, g_k> over leaves and limits
@@ -234,9 +271,10 @@ def run_case(case):
         expect_graph = any(rk is not None and isinstance(rk, torch.Tensor) and rk.requires_grad for rk in ref)
         if not terms:
             if expect_graph:
-                return violation("no_second_graph", "create_graph=True produced gradients without graph", labels)
-            return ok(labels, nontrivial=nonzero)
-        got2 = xt_call(torch.autograd.grad, sum(terms), diff_leaves + limits_g, allow_unused=True, _where='backward2')
+                return violation("no_second_graph" + sfx, where + "create_graph=True produced gradients without graph", labels), False
+            return None, nonzero
+        kw = {"retain_graph": True} if multi else {}
+        got2 = xt_call(torch.autograd.grad, sum(terms), diff_leaves + limits_g, allow_unused=True, _where='backward2', **kw)
         # reference: theta-part by autograd of the reference expression with limits fixed
         L_ref = sum((c * rk).sum() for c, rk in zip(C, ref) if rk is not None)
         ref2_leaf = grads_or_zero(L_ref, diff_leaves) if diff_leaves else []
@@ -263,9 +301,9 @@ def run_case(case):
             sc = float(rk.detach().abs().max())
             if not err <= tol2 * (1 + sc):
                 what = "limit" if k >= nleaf else "leaf"
-                return violation("grad2_" + what, "second-order gradient w.r.t. %s #%d: got %s ref %s (err %.3e, tol %.3e); n=%d nb=%d" % (
-                    what, k, gk0.detach().reshape(-1).tolist()[:4], rk.detach().reshape(-1).tolist()[:4], err, tol2 * (1 + sc), n, nb), labels)
-    return ok(labels, nontrivial=nonzero)
+                return violation("grad2_" + what + sfx, where + "second-order gradient w.r.t. %s #%d: got %s ref %s (err %.3e, tol %.3e); n=%d nb=%d" % (
+                    what, k, gk0.detach().reshape(-1).tolist()[:4], rk.detach().reshape(-1).tolist()[:4], err, tol2 * (1 + sc), n, nb), labels), False
+    return None, nonzero
 
 
 # ------------------------------------------------------------------ strategy
@@ -290,11 +328,21 @@ def case_st(draw, tier="quick"):
         xl, xu = "ninf", "pinf"
         xlform, xuform = draw(st.sampled_from(["float", "t"])), draw(st.sampled_from(["float", "t"]))
     spec = draw(gen.funspec_st(2, 2))
+    # history of backward passes on the one forward graph, [cotangent 0/1, graph-recording?] each (all but a single pass
+    # with retain_graph): plain then recording (then second order), another cotangent first, recording twice, recording then plain
+    order = draw(st.sampled_from([1, 1, 2]))
+    if order == 1:
+        passes = draw(st.sampled_from([[[0, False]], [[0, False]], [[0, False], [0, False]], [[0, False], [1, False]],
+                                       [[1, False], [0, False], [1, False]]]))
+    else:
+        passes = draw(st.sampled_from([[[0, True]], [[0, True]], [[0, False], [0, True]], [[0, False], [0, True]], [[1, False], [0, True]],
+                                       [[0, True], [0, True]], [[0, True], [1, True]], [[0, True], [1, False]],
+                                       [[0, False], [0, True], [1, True]]]))
     # effective tensor 0 is `a`, 1 is `c`
     return {"n": n, "nb": nb, "m": draw(st.integers(1, 3)), "xl": xl, "xu": xu, "xlform": xlform, "xuform": xuform,
             "out": draw(st.sampled_from(["scalar", "vector", "tuple"])), "spec": spec,
             "req": [draw(st.sampled_from([True, True, False])), draw(st.sampled_from([True, True, False]))],
-            "order": draw(st.sampled_from([1, 1, 2])), "seed": draw(st.integers(0, 2 ** 31 - 1)),
+            "order": order, "passes": passes, "seed": draw(st.integers(0, 2 ** 31 - 1)),
             "piece": draw(st.sampled_from([None, None, 0.3, 0.6])), "loss": draw(st.sampled_from(["linear", "linear", "linear", "fit"]))}
 
 
